@@ -640,6 +640,17 @@ class Interp:
             return OpaqueV('float', c.value)
         if k == 'named':
             t = c.value
+            ms = re.match(r'^\{(alloc\d+): &', t)
+            if ms and ('__static_alloc__' + ms.group(1)) in self.m.consts:
+                # reference to a `static` item with a run-time initialiser: one process-wide cell, initialised once
+                sname = self.m.consts['__static_alloc__' + ms.group(1)]
+                hkey = ('static', sname)
+                sf = self.m.consts.get(sname) or self.m.consts.get(last_seg(sname))
+                if hkey not in self.heap and isinstance(sf, Function):
+                    self.heap[hkey] = self.call_mir(sf, [], rescue=True)
+                if hkey in self.heap:
+                    return RefV(Addr(('H', hkey)))
+                # a static of another crate (no body in this dump): handled as before, by the models of its accessors
             key = last_seg(strip_generics(t))
             cv = self.m.consts.get(key)
             if cv is None:
